@@ -1,4 +1,5 @@
 import ElvisVerif.Generated.RouterCert
+import ElvisVerif.Generated.Arp
 /-
 Model of static routing through `ArpRouter` (sim/elvis/src/applications/arp_router.rs) together
 with the pieces of the stack a routed datagram touches: `Ipv4::demux` (listen bindings incl. the
@@ -196,8 +197,8 @@ def udpDemux (nd : Node) (pkt : Pkt) : Demuxed :=
     else .dropped
   | _ => .dropped
 
-/-- `Ipv4::demux` + `Ipv4Session::receive` -/
-def ipv4Demux (n : Nat) (nd : Node) (pkt : Pkt) : Except String Demuxed :=
+/-- `Ipv4::demux` after a successful header parse, + `Ipv4Session::receive` -/
+def ipv4DemuxParsed (n : Nat) (nd : Node) (pkt : Pkt) : Except String Demuxed :=
   match findBind nd.binds pkt.hdr.dst (protoClass pkt.hdr.proto) with
   | none => .ok .dropped
   | some up =>
@@ -209,6 +210,15 @@ def ipv4Demux (n : Nat) (nd : Node) (pkt : Pkt) : Except String Demuxed :=
         | .error e => .error e
         | .ok r => .ok (.routed r)
     else .ok .dropped
+
+/-- `Ipv4Header::from_bytes` refuses a total length below the header length (if the source has
+    that test: extracted per run) -/
+def headerRejected (h : Hdr) : Bool :=
+  Elvis.Gen.ipv4DecoderRejectsShortTotalLength && decide (h.totalLength < Elvis.Gen.ipv4BaseOctets)
+
+/-- `Ipv4::demux`: header parse, binding, reassembler, upstream -/
+def ipv4Demux (n : Nat) (nd : Node) (pkt : Pkt) : Except String Demuxed :=
+  if headerRejected pkt.hdr then .ok .dropped else ipv4DemuxParsed n nd pkt
 
 def frameLen (p : Pkt) : Nat := 20 + p.payload.length
 
@@ -358,6 +368,17 @@ abbrev Cache := List (Addr × Option Mac)
 def Cache.get (c : Cache) (ip : Addr) : Option (Option Mac) := (c.find? (fun e => e.1 == ip)).map (·.2)
 def Cache.set (c : Cache) (ip : Addr) (v : Option Mac) : Cache := (ip, v) :: c.filter (fun e => e.1 != ip)
 
+/-- what the table tells `Arp::resolve` (first look-up, and every wake-up of `get_mac`): an `Ok`
+    entry is an answer; an `Err` entry left by an earlier resolution that gave up is one only if
+    the source still treats it so (`Gen.Arp.cachedFailureIsAnswer`, extracted per run; `false`
+    since fix 80c9d3df: resolve asks again, and a waiter is not failed by another resolver's
+    time-out) -/
+def Cache.answer (c : Cache) (ip : Addr) : Option (Option Mac) :=
+  match c.get ip with
+  | some (some mac) => some (some mac)
+  | some none => if Elvis.Gen.Arp.cachedFailureIsAnswer then some none else none
+  | none => none
+
 /-- resolve task of a pending forward: remaining ARP requests, and whether it already ran once -/
 structure Task where
   p : Pending
@@ -381,7 +402,7 @@ def CState.abs (s : CState) : State := { flight := s.flight, pend := s.tasks.map
 
 inductive CChoice
   | deliver (i : Nat)
-  /-- the resolve task of pending j is polled: cache hit / failed entry / retry timer / give-up -/
+  /-- the resolve task of pending j is polled: table answer / retry timer / give-up -/
   | task (j : Nat)
   /-- the a-th ARP frame in flight is delivered (a broadcast reaches every tap of its network) -/
   | arp (a : Nat)
@@ -424,7 +445,7 @@ def cstep (topo : Topo) (s : CState) : CChoice → Except String CState
     match s.tasks[j]? with
     | none => .ok s
     | some t =>
-      match ((s.caches[t.p.node]?).getD []).get t.p.nextHop with
+      match ((s.caches[t.p.node]?).getD []).answer t.p.nextHop with
       | some (some mac) =>
         match resolveCore topo t.p mac with
         | .error e => .error e
@@ -453,11 +474,11 @@ def cstep (topo : Topo) (s : CState) : CChoice → Except String CState
       .ok { s with arpFlight := rest ++ r.2, arpLog := s.arpLog ++ r.2, caches := r.1 }
 
 /-- canonical schedule of the driver: runnable resolve tasks first (fresh ones, or those whose
-    target now has a table entry), then ARP frames, then data frames (oldest first), and only when
+    target now has an answering table entry), then ARP frames, then data frames (oldest first), and only when
     nothing else can move a retry timer.  Returns `none` when the system is quiescent. -/
 def nextChoice (s : CState) : Option CChoice :=
   let runnable := s.tasks.findIdx? (fun t =>
-    !t.started || (((s.caches[t.p.node]?).getD []).get t.p.nextHop).isSome)
+    !t.started || (((s.caches[t.p.node]?).getD []).answer t.p.nextHop).isSome)
   match runnable with
   | some j => some (.task j)
   | none =>
